@@ -36,6 +36,7 @@ class Untranslatable(Exception):
 TOKEN_RE = re.compile(r"""
     (?P<ws>\s+|//[^\n]*|/\*.*?\*/)
   | (?P<num>[0-9][0-9_]*(?:\.[0-9][0-9_]*)?(?:[eE][-+]?[0-9]+)?(?:_?f64|_?usize|_?u32|_?i32)?|[0-9][0-9_]*\.(?![0-9a-zA-Z_.]))
+  | (?P<str>"(?:[^"\\]|\\.)*")
   | (?P<id>[A-Za-z_][A-Za-z0-9_]*)
   | (?P<life>'[a-z_]+)
   | (?P<op>::|->|=>|==|!=|<=|>=|&&|\|\||\+=|-=|\*=|/=|\.\.=|\.\.|[-+*/%<>=!&|.,;:(){}\[\]?#])
@@ -278,6 +279,9 @@ class P:
         if k == "num":
             self.eat()
             return ("num", v)
+        if k == "str":
+            self.eat()
+            return ("str", v)
         if v == "(":
             self.eat("(")
             items = []
@@ -291,6 +295,15 @@ class P:
             self.eat(")")
             if len(items) == 1 and not trailing:
                 return ("paren", items[0])
+            return ("tuple", items)
+        if v == "[":
+            self.eat("[")
+            items = []
+            while not self.at("]"):
+                items.append(self.expr())
+                if self.at(","):
+                    self.eat(",")
+            self.eat("]")
             return ("tuple", items)
         if v == "if":
             self.eat()
@@ -570,6 +583,8 @@ class Lower:
                 return name, "B"
             if name in self.consts:
                 return scalar_const(self.consts[name]), "S"
+            if name in self.cfg.get("names", {}):
+                return self.cfg["names"][name]
             if name in self.cfg.get("variants", {}):
                 v = self.cfg["variants"][name]
                 return v[0], ("st", v[1])
@@ -698,6 +713,9 @@ class Lower:
             return f"({tb}.smul {a} {b})", tb
         if ta in ("V2", "V3") and tb == "S" and op == "/":
             return f"({ta}.smul ((1 : α) / {b}) {a})", ta
+        for (bop, bta, btb), (fn, rt) in self.cfg.get("binop", {}).items():
+            if bop == op and bta == ta and btb == tb:
+                return f"({fn} {a} {b})", rt
         raise Untranslatable(f"operator {op} on {ta}, {tb}")
 
     def app(self, ln, pre, args, pts, env):
@@ -752,7 +770,7 @@ class Lower:
             if m == "norm_squared" and not args:
                 return f"({t}.normSq {s})", "S"
             if m == "normalize" and not args:
-                return f"({t}.smul ((1 : α) / {t}.norm {s}) {s})", t
+                return f"({t}.normalize {s})", t
         if isinstance(t, tuple) and t[0] == "st":
             rn = self.cfg.get('rust_names', {}).get(t[1], t[1])
             ext = self.cfg.get("extern", {}).get(f"{rn}::{m}")
@@ -777,7 +795,8 @@ class Lower:
             return "[]", ("list", "?")
         if len(path) == 2 and path[0] == "f64" and args:
             return self.mcall(("mcall", args[0], name, args[1:]), env)
-        ext = self.cfg.get("extern", {}).get("::".join(path)) or self.cfg.get("extern", {}).get("::".join(path[-2:]))
+        npath = [self.cfg["self_rust"] if (q == "Self" and self.cfg.get("self_rust")) else q for q in path]
+        ext = self.cfg.get("extern", {}).get("::".join(npath)) or self.cfg.get("extern", {}).get("::".join(npath[-2:]))
         if ext:
             ln, pts, rt = ext
             return self.app(ln, [], args, pts, env), rt
@@ -1036,6 +1055,16 @@ def translate_group(pid, group, report):
             fcfg["self_ty"] = fcfg.get("types", {}).get(f["impl"], f.get("self_ty"))
             fcfg["self_rust"] = f["impl"]
         try:
+            if "fragment" in f:
+                m = re.search(f["fragment"], srcs[f["file"]], re.S)
+                if not m:
+                    raise Untranslatable("fragment pattern not found")
+                plist = [(("pid", n), tuple(t) if isinstance(t, list) else t) for n, t in f["params"]]
+                rt = f["ret"]
+                body = "{ " + m.group(1) + " }"
+                sigs[key] = (f, fcfg, plist, rt, body)
+                known[key] = ("GenRs." + f["lean"], [p[1] for p in plist], rt)
+                continue
             params, ret, body = find_fn(srcs[rel if False else f["file"]], f.get("impl"), f["name"], f.get("nth", 0))
             ptoks = P(lex(params))
             plist = []
